@@ -291,6 +291,11 @@ func readerMain(args []string) {
 		}
 		readerCase(w, fmt.Sprintf("rnd-%d", c), cmds, cuts, trailing)
 	}
+	// every hostile length once as a bulk length and once as an array count, whole and cut into single bytes
+	for i, l := range hostileLens {
+		readerRaw(w, fmt.Sprintf("mal-bulklen-%d", i), []byte("*2\r\n$4\r\nECHO\r\n$"+l+"\r\nabc\r\n*1\r\n$4\r\nPING\r\n"), nil, 3)
+		readerRaw(w, fmt.Sprintf("mal-count-%d", i), []byte("*"+l+"\r\n$4\r\nECHO\r\n$3\r\nabc\r\n*1\r\n$4\r\nPING\r\n"), make1s(60), 3)
+	}
 	// hostile byte streams
 	nm := 400
 	if *tier == "thorough" {
@@ -307,10 +312,16 @@ func readerMain(args []string) {
 	}
 }
 
+// lengths and counts a hostile client may announce: around the limits, around 2^31, 2^32 and 2^63/2^64 (wrap-around of
+// narrower integer types: a value whose low 32 bits look harmless), and non-numbers
+var hostileLens = []string{"-1", "-5", "0", "5", "3", "1000000", "536870912", "536870913", "9223372036854775807", "9223372036854775808",
+	"-9223372036854775808", "x", "", "+3", "03", " 3", "3 ", "1e3",
+	"2147483647", "2147483648", "-2147483648", "-2147483649", "4294967295", "4294967296", "4294967299", "4294967301", "-4294967291", "-4294967296",
+	"-4294967297", "8589934595", "18446744073709551615", "18446744073709551619", "-18446744073709551613"}
+
 // malformed: grammar-based mutations of a valid frame
 func (r *rng) malformed() []byte {
-	lens := []string{"-1", "-5", "0", "5", "3", "1000000", "536870912", "536870913", "9223372036854775807", "9223372036854775808",
-		"-9223372036854775808", "x", "", "+3", "03", " 3", "3 ", "1e3"}
+	lens := hostileLens
 	term := []string{"\r\n", "\n", "\r", "", "\r\r\n", "\n\n"}
 	var b []byte
 	switch r.intn(10) {
